@@ -327,6 +327,12 @@ theorem endServe_cred (c : Cli) : (endServe c).cred = c.cred := by
   unfold endServe release closeConn; split <;> rfl
 theorem endServe_table (c : Cli) (o : Nat) (h : o ∈ (endServe c).table) : o ∈ c.table := by
   unfold endServe release closeConn at h; split at h <;> simp_all
+theorem endServeD_cred (c : Cli) : (endServeD c).cred = c.cred := by
+  unfold endServeD endServe release closeConn; split <;> split <;> rfl
+theorem endServeD_table (c : Cli) (o : Nat) (h : o ∈ (endServeD c).table) : o ∈ c.table := by
+  unfold endServeD endServe release closeConn at h; split at h <;> split at h <;> simp_all
+theorem endServeD_live (c : Cli) : Live (endServeD c).phase := by
+  unfold endServeD endServe release; split <;> simp [Live]
 theorem release_table (c : Cli) : (release c).table = c.table := rfl
 theorem release_cred (c : Cli) : (release c).cred = c.cred := rfl
 theorem release_inst (c : Cli) : (release c).inst = c.inst := rfl
@@ -373,17 +379,18 @@ theorem consume_served (l : List Item) (c : Cli) (n : Nat) : Served1 c n (consum
       · exact Or.inr ⟨Nat.le_trans a3 h1, h2⟩
     | handled => simpa [consume] using ih c n
     | empty => simpa [consume] using ih c n
-    | bad => exact ⟨endServe_cred c, by simp [consume, Live], by simp [consume], Nat.le_refl _,
-        fun o ho => Or.inl (endServe_table c o (by simpa [consume] using ho))⟩
-    | bye => exact ⟨endServe_cred c, by simp [consume, Live], by simp [consume], Nat.le_refl _,
-        fun o ho => Or.inl (endServe_table c o (by simpa [consume] using ho))⟩
-    | fin => exact ⟨endServe_cred c, by simp [consume, Live], by simp [consume], Nat.le_refl _,
-        fun o ho => Or.inl (endServe_table c o (by simpa [consume] using ho))⟩
+    | bad => exact ⟨endServeD_cred c, endServeD_live c, endServeD_inst' c, Nat.le_refl _,
+        fun o ho => Or.inl (endServeD_table c o (by simpa [consume] using ho))⟩
+    | bye => exact ⟨endServeD_cred c, endServeD_live c, endServeD_inst' c, Nat.le_refl _,
+        fun o ho => Or.inl (endServeD_table c o (by simpa [consume] using ho))⟩
+    | fin => exact ⟨endServeD_cred c, endServeD_live c, endServeD_inst' c, Nat.le_refl _,
+        fun o ho => Or.inl (endServeD_table c o (by simpa [consume] using ho))⟩
     | part =>
       simp only [consume]
       split
       · exact ⟨rfl, by simp [Live], rfl, Nat.le_refl _, fun o ho => Or.inl ho⟩
-      · exact ⟨endServe_cred c, by simp [Live], by simp, Nat.le_refl _, fun o ho => Or.inl (endServe_table c o ho)⟩
+      · exact ⟨endServeD_cred c, endServeD_live c, endServeD_inst' c, Nat.le_refl _,
+          fun o ho => Or.inl (endServeD_table c o ho)⟩
 
 theorem poolConsume_served (l : List Item) (c : Cli) (n : Nat) : Served1 c n (poolConsume l c n) := by
   induction l generalizing c n with
@@ -483,19 +490,19 @@ def Tk (s : St) (k : Nat) (j : Nat) : Prop := j = k ∨ s.cfg.kind = .oneshot
 theorem closeEffect_cred (c : Cli) : (closeEffect c).cred = c.cred := by
   unfold closeEffect shutOne
   split
-  · cases c.phase <;> simp [endServe_cred, release_cred]
+  · cases c.phase <;> simp [endServeD_cred, release_cred]
   · split <;> rfl
 
 theorem closeEffect_phase (c : Cli) : (closeEffect c).phase = c.phase ∨ Live (closeEffect c).phase := by
   unfold closeEffect shutOne
   split
-  · cases h : c.phase <;> simp [Live, h]
+  · cases h : c.phase <;> first | exact Or.inr (endServeD_live c) | simp [Live, h]
   · split <;> simp [Live]
 
 theorem closeEffect_table (c : Cli) (o : Nat) (h : o ∈ (closeEffect c).table) : o ∈ c.table := by
   unfold closeEffect shutOne at h
   split at h
-  · cases hp : c.phase <;> simp [hp] at h <;> first | exact h | exact endServe_table c o h
+  · cases hp : c.phase <;> simp [hp] at h <;> first | exact h | exact endServeD_table c o h
   · split at h <;> exact h
 
 theorem dropEffect_cred (c : Cli) : (dropEffect c).cred = c.cred := by
@@ -803,11 +810,15 @@ theorem wake_eff (s : St) (k : Nat) : Eff s (wake s k) (Tw s k) := by
   · split
     · split
       · exact (poolUnblock_eff s k).mono (fun j hj => Or.inl hj)
-      · refine ((Eff.set1 s (s.set k (endServe (s.cli k))) k (endServe (s.cli k)) (endServe_cred _)
-          (Or.inr (by simp [Live])) (endServe_inst _) (fun o h => endServe_table _ o h)
-          rfl rfl rfl rfl rfl rfl rfl rfl rfl rfl rfl).trans (afterEnd_eff _ k)).mono ?_
-        intro j hj
-        exact (Tk_or (s := s) rfl j hj).elim Or.inl (fun h => Or.inr (Or.inr h))
+      · split
+        · exact (Eff.set1 s (s.set k (endServeD (s.cli k))) k (endServeD (s.cli k)) (endServeD_cred _)
+            (Or.inr (endServeD_live _)) (endServeD_inst' _) (fun o h => endServeD_table _ o h)
+            rfl rfl rfl rfl rfl rfl rfl rfl rfl rfl rfl).mono (fun j hj => Or.inl hj)
+        · refine ((Eff.set1 s (s.set k (endServe (s.cli k))) k (endServe (s.cli k)) (endServe_cred _)
+            (Or.inr (by simp [Live])) (endServe_inst _) (fun o h => endServe_table _ o h)
+            rfl rfl rfl rfl rfl rfl rfl rfl rfl rfl rfl).trans (afterEnd_eff _ k)).mono ?_
+          intro j hj
+          exact (Tk_or (s := s) rfl j hj).elim Or.inl (fun h => Or.inr (Or.inr h))
     · exact Eff.refl s _
   · split
     · split
@@ -817,6 +828,15 @@ theorem wake_eff (s : St) (k : Nat) : Eff s (wake s k) (Tw s k) := by
         exact (Tk_or (s := s) rfl j hj).elim Or.inl (fun h => Or.inr (Or.inr h))
     · exact Eff.refl s _
   · exact Eff.refl s _
+
+/-- the thread of a threaded / one-shot / forking server's client comes back from the blocking `on_disconnect` -/
+theorem dedRelease_eff (s : St) (k : Nat) : Eff s (dedRelease s k) (Tk s k) := by
+  unfold dedRelease
+  refine ((Eff.set1 s (s.set k { s.cli k with phase := .done, child := false, slowHook := false }) k
+    { s.cli k with phase := .done, child := false, slowHook := false } rfl (Or.inr (by simp [Live])) rfl
+    (fun o h => h) rfl rfl rfl rfl rfl rfl rfl rfl rfl rfl rfl).trans (afterEnd_eff _ k)).mono ?_
+  intro j hj
+  exact Tk_or (s := s) rfl j hj
 
 /-- bytes written by a client change nothing the relation reads until the server reads them -/
 theorem inbox_eff (s : St) (k : Nat) (c' : Cli) (h1 : c'.cred = (s.cli k).cred) (h2 : c'.phase = (s.cli k).phase)
@@ -983,7 +1003,7 @@ theorem step_connect {s t : St} {o : Obs} {k : Nat} {cred : Cred} (h : step s (.
 theorem step_eff {s t : St} {o : Obs} (op : Op) (hop : op ≠ .serverClose) (hcon : ∀ k c, op ≠ .connect k c)
     (hcon2 : ∀ k j, op ≠ .connectReuse k j) (h : step s op = .ok (t, o)) :
     Eff s t (fun j => some j = op.client ∨ (s.cli j).phase = .backlog ∨ s.cfg.kind = .oneshot ∨
-      ((∃ k, op = .releaseHook k) ∧ s.cfg.spare = false)) := by
+      ((∃ k, op = .releaseHook k) ∧ s.cfg.spare = false ∧ s.cfg.kind = .pool)) := by
   have key : ∀ (k : Nat) (c' : Cli) (l : List Item), c'.cred = (s.cli k).cred → c'.phase = (s.cli k).phase →
       c'.inst = (s.cli k).inst → c'.table = (s.cli k).table →
       ∀ x : Prop, Eff s (send (s.set k c') k l)
@@ -1049,13 +1069,22 @@ theorem step_eff {s t : St} {o : Obs} (op : Op) (hop : op ≠ .serverClose) (hco
     simp only [step] at h
     split at h
     · cases h
-    · simp only [Except.ok.injEq, Prod.mk.injEq] at h
-      obtain ⟨rfl, _⟩ := h
-      refine (poolRelease_eff s k).mono ?_
-      intro j hj
-      rcases hj with hj | hj
-      · exact Or.inl (by rw [hj]; rfl)
-      · exact Or.inr (Or.inr (Or.inr ⟨⟨k, rfl⟩, hj⟩))
+    · split at h
+      · rename_i hpool
+        simp only [Except.ok.injEq, Prod.mk.injEq] at h
+        obtain ⟨rfl, _⟩ := h
+        refine (poolRelease_eff s k).mono ?_
+        intro j hj
+        rcases hj with hj | hj
+        · exact Or.inl (by rw [hj]; rfl)
+        · exact Or.inr (Or.inr (Or.inr ⟨⟨k, rfl⟩, hj, hpool⟩))
+      · simp only [Except.ok.injEq, Prod.mk.injEq] at h
+        obtain ⟨rfl, _⟩ := h
+        refine (dedRelease_eff s k).mono ?_
+        intro j hj
+        rcases hj with hj | hj
+        · exact Or.inl (by rw [hj]; rfl)
+        · exact Or.inr (Or.inr (Or.inl hj))
 
 /-- the state in which a new connection that was given the descriptor number of `j`'s closed socket has joined the listen
 queue: whatever `fd_to_conn` held under that number is replaced by it -/
